@@ -138,13 +138,16 @@ TYPES = [
     record("G1", [F("mid", R("G2")), F("j", P("int32"), default="1")]),
     # a record with NO required field of its own whose optional members hold records that have required fields
     record("ONest", [F("oi", R("Inner"), True), F("al", A(R("Inner")), True), F("mi", M(R("Inner")), True), F("n", P("int32"), True)]),
+    # an enum whose symbols are not all upper case (symbols are case-sensitive identifiers), held in every position
+    enum("Unit", ["kg", "Lb", "metricTon", "UP", "up"]),
+    record("UHold", [F("u", R("Unit")), F("ou", R("Unit"), True), F("au", A(R("Unit")), True), F("mu", M(R("Unit")), True)]),
     # records with includes and NO own fields (and a record including such a record)
     record("Alias", [], includes=["IBase"]),
     record("Alias2", [F("q", P("int32"), True)], includes=["Alias"]),
 ]
 
 # top-level types the drivers exercise
-TOP = ["Inner", "Prims", "Opts", "Dflt", "DOuter", "Coll", "U", "UN", "WithU", "Incl", "Incl2", "Rec", "Big", "Color", "Fx4", "IX", "IY", "DElems"]
+TOP = ["Inner", "Prims", "Opts", "Dflt", "DOuter", "Coll", "U", "UN", "WithU", "Incl", "Incl2", "Rec", "Big", "Color", "Fx4", "IX", "IY", "DElems", "UHold"]
 
 
 def manifest(package_root):
@@ -252,6 +255,11 @@ def go_schema():
 RES_TYPES = [
     record("Ent", [F("id", P("int64"), True), F("name", P("string")), F("note", P("string"), True), F("inner", R("Inner"), True)]),
     record("Meta", [F("total", P("int32")), F("tag", P("string"), True)]),
+    # annotated fields whose NAMES are prefixes of each other (id / idType, owner / ownerUrn), a read-only record field and a
+    # nested create-only path (info/s) next to them, and an unannotated field whose name extends an annotated one (idTypeNote)
+    record("Own", [F("id", P("int64"), True), F("idType", P("string"), True), F("idTypeNote", P("string"), True),
+                   F("owner", P("string"), True), F("ownerUrn", P("string"), True), F("title", P("string")),
+                   F("stamp", R("Inner"), True), F("info", R("Inner"), True)]),
 ]
 
 
@@ -392,6 +400,9 @@ RESOURCES = [
              _rests(_ENT, ("get", "create", "update", "partial_update", "batch_create", "batch_update", "batch_partial_update"),
                     with_params=("create", "update", "partial_update", "batch_create", "batch_update", "batch_partial_update")),
              read_only=("id",), create_only=("note",)),
+    resource([seg("owns", P("int64"))], R("Own"),
+             _rests(R("Own"), ("get", "create", "update", "partial_update", "batch_create", "batch_update", "batch_partial_update")),
+             read_only=("id", "idType", "stamp"), create_only=("owner", "ownerUrn", "info/s")),
 ]
 
 
